@@ -191,6 +191,12 @@ fn run_case(c: &Case, rep: &mut Report) -> Option<V> {
     let template = real::blank_machine();
     let mut m = c.init.build(&template);
     let mut rng = Rng::new(c.seed);
+    if rng.chance(1, 2) {
+        // hostile but legal external inputs
+        m.set_temp(rng.f32_adversarial());
+        m.set_analog_input1(rng.f32_adversarial());
+        m.set_analog_input2(rng.f32_adversarial());
+    }
     match c.kind {
         // sampled states along a run
         0 | 1 => {
@@ -206,6 +212,19 @@ fn run_case(c: &Case, rep: &mut Report) -> Option<V> {
                 }
                 if m.state() == State::Stopped && rng.chance(1, 4) {
                     m.trigger_key_continue();
+                }
+                if rng.chance(1, 400) {
+                    match rng.below(3) {
+                        0 => m.cpu_reset(),
+                        1 => m.master_reset(),
+                        _ => {
+                            // reload: master reset + image, as Machine::load does
+                            let again = random_program(&mut rng);
+                            m.master_reset();
+                            m.raw_mut().bus_mut().memory_mut().copy_from_slice(&again.ram);
+                        }
+                    }
+                    rep.inc("resets_during_sampled_runs");
                 }
                 real::edge(&mut m);
             }
